@@ -216,20 +216,139 @@ def r2_candidates(ctx):
     if fn is None:
         r.missing("Locale::merge_plurals")
         return r
-    t = flatp(show(fn.body))
-    steps = {
-        "single-kept": "ifplurals.len==1{for_,key,_,valueinplurals{self.keys.insertkey,value;};continue;}",
-        "needs-other": "letSome_,rule_type,other=plurals.remove&PluralForm::Otherelse{for_,key,_,valueinplurals{self.keys.insertkey,value;};continue;}",
-        "group-by-base": "letmap=possible_plurals.entrybase_key.to_owned.or_default;map.insertplural_form,key,rule_type,value;",
-        "non-candidates-kept": "else{self.keys.insertkey,value;}",
-        "count-key": "count_key:Key::count",
-        "other": "other:Box::newother",
+    # evaluated (rules/absint.py) on key sets of every shape the merging distinguishes; the expected key set is written from the
+    # statement: forms of one base key and one rule type that include `_other` become one plural key; a lone form or forms
+    # without `_other` stay ordinary keys; cardinal and ordinal forms meeting under one key, or a merged key landing on an
+    # existing key, is an error; nothing is ever dropped
+    from rules.absint import L, B, UNIT
+
+    def S(x):
+        return ("str", x)
+
+    def V(n):
+        return C("Literal", A("text-" + n))
+    nested = CF("Locale", keys=L(T(key("a_one"), V("a_one")), T(key("a_other"), V("a_other")), T(key("b"), V("b"))), name=S("grp"), top_locale_name=S("fr"))
+    shapes = {
+        "plain keys": [("a", None), ("b", None)],
+        "one + other": [("k_one", None), ("k_other", None)],
+        "four forms and a neighbour": [("k_zero", None), ("k_one", None), ("k_few", None), ("k_other", None), ("x", None)],
+        "ordinal": [("k_ordinal_one", None), ("k_ordinal_other", None)],
+        "a lone form": [("k_one", None), ("z", None)],
+        "forms without other": [("k_one", None), ("k_two", None)],
+        "base key with underscores": [("my_key_one", None), ("my_key_other", None)],
+        "unknown suffix": [("k_foo", None), ("k_other", None)],
+        "range under a form name": [("k_one", C("Ranges", A("r"))), ("k_other", None)],
+        "cardinal forms + an ordinal form": [("k_one", None), ("k_other", None), ("k_ordinal_few", None)],
+        "ordinal forms + a cardinal form": [("k_ordinal_one", None), ("k_ordinal_other", None), ("k_many", None)],
+        "cardinal form + ordinal other": [("k_one", None), ("k_ordinal_other", None)],
+        "same form in both rule types": [("k_one", None), ("k_ordinal_one", None)],
+        "same form in both rule types + other": [("k_one", None), ("k_ordinal_one", None), ("k_other", None)],
+        "merged key lands on a normal key": [("k_one", None), ("k_other", None), ("k", None)],
+        "two plural keys": [("a_one", None), ("a_other", None), ("b_ordinal_two", None), ("b_ordinal_other", None)],
+        "inside a sub-key group": [("grp", C("Subkeys", C("Some", nested))), ("top", None)],
     }
-    for k, frag in steps.items():
-        if has(t, frag):
-            r.inst("merge_plurals#" + k, frag[:80])
-        else:
-            r.viol("R2:merge_plurals#" + k, "step `%s` not found in merge_plurals" % frag[:80], file=fn.file, line=fn.line)
+    FORMS6 = {"zero": "Zero", "one": "One", "two": "Two", "few": "Few", "many": "Many", "other": "Other"}
+
+    def reference(entries):
+        """(error kind | None, {key: ("plain", value) | ("plural", rule, {form: value}, other)}) from the statement"""
+        out = {}
+        groups = {}
+        for nm, val in entries:
+            v = val if val is not None else V(nm)
+            cand = None
+            if v[1] not in ("Ranges", "Subkeys", "Default") and "_" in nm:
+                base, suf = nm.rsplit("_", 1)
+                if suf in FORMS6:
+                    rule = "Cardinal"
+                    if base.endswith("_ordinal"):
+                        base, rule = base[:-len("_ordinal")], "Ordinal"
+                    cand = (base, rule, FORMS6[suf])
+            if cand:
+                groups.setdefault(cand[0], []).append((nm, cand[1], cand[2], v))
+            else:
+                out[nm] = ("plain", v)
+        errs = set()
+        for base, cs in groups.items():
+            if len(cs) == 1 or not any(c[2] == "Other" for c in cs):
+                if len({c[2] for c in cs}) < len(cs):
+                    errs.add("ConflictingPluralRuleType|verbatim")      # the same form in both rule types: rejected, or both kept
+                for c in cs:
+                    out[c[0]] = ("plain", c[3])
+                continue
+            if len({c[1] for c in cs}) != 1:
+                errs.add("ConflictingPluralRuleType")
+                continue
+            if base in out:
+                errs.add("PluralsAtNormalKey")
+                continue
+            out[base] = ("plural", cs[0][1], {c[2]: c[3] for c in cs if c[2] != "Other"}, next(c[3] for c in cs if c[2] == "Other"))
+        return errs, out
+
+    def shown_keys(locale_v):
+        d = {}
+        for x in absint.fields_of(locale_v)["keys"][1]:
+            k2 = absint.fields_of(x[1][0])["name"][1]
+            v2 = x[1][1]
+            if v2[0] == "ctor" and v2[1] == "Plurals":
+                f = absint.fields_of(v2[2][0])
+                d[k2] = ("plural", f["rule_type"][1], {y[1][0][1]: y[1][1] for y in f["forms"][1]}, f["other"])
+            else:
+                d[k2] = ("plain", v2)
+        return d
+    badm = []
+    nsh = 0
+    for label, entries in shapes.items():
+        this = CF("Locale", keys=L(*[T(key(nm), val if val is not None else V(nm)) for nm, val in entries]), name=S("fr"), top_locale_name=S("fr"))
+        ev = AEval(inputs=[(r'^cfg!feature="plurals"$', B(True)), (r'^!cfg!feature="plurals"$', B(False))], funcs=funcs,
+                   builtins={"check_forms": lambda rv, a: C("Ok", UNIT), "push_key": lambda rv, a: UNIT, "pop_key": lambda rv, a: C("Some", A("popped")),
+                             "unwrap_at": lambda rv, a: rv[2][0] if rv[0] == "ctor" and rv[2] else rv, "get": lambda rv, a: B(False) if rv == A("SKIP_ICU_CFG") else absint.AEval.method})
+        ev.builtins.pop("get")
+        ev.path_builtins = {"Key::try_new": lambda a: C("Ok", CF("Key", name=a[0])), "Key::new": lambda a: C("Some", CF("Key", name=a[0])), "Key::count": lambda a: CF("Key", name=S("var_count")),
+                            "SKIP_ICU_CFG.get": lambda a: B(False)}
+        ev.consts = {"SKIP_ICU_CFG": A("SKIP_ICU_CFG")}
+        ev.builtins["pop_key"] = lambda rv, a, st=[]: C("Some", CF("Key", name=S("?")))
+        # the key path is only used for messages: modelled as an opaque stack whose top is the key just pushed
+        stack = []
+        ev.builtins["push_key"] = lambda rv, a, stack=stack: (stack.append(a[0]), UNIT)[1]
+        ev.builtins["pop_key"] = lambda rv, a, stack=stack: C("Some", stack.pop()) if stack else C("None")
+        got = ev.run_fn(fn, [this, S("fr"), A("key_path"), A("warnings")])
+        nsh += 1
+        if isinstance(got, str):
+            badm.append("%s: cannot be evaluated: %s" % (label, got))
+            break
+        errs, want = reference(entries)
+        after = (getattr(ev, "last_env", None) or {}).get("self", this)
+        ek = got[2][0][1] if got[0] == "ctor" and got[1] == "Err" and got[2] and got[2][0][0] == "ctor" else None
+        names = [nm for nm, _v in entries]
+        if errs and not any("|verbatim" in e for e in errs):
+            if ek not in errs:
+                badm.append("keys %s: %s, expected an error (%s)" % (names, absint.fmt(got)[:100], " / ".join(sorted(errs))))
+            continue
+        if errs and ek is not None:
+            if ek != "ConflictingPluralRuleType":
+                badm.append("keys %s: %s" % (names, absint.fmt(got)[:100]))
+            continue
+        if got != C("Ok", UNIT):
+            badm.append("keys %s: %s, expected the keys %s" % (names, absint.fmt(got)[:120], sorted(want)))
+            continue
+        have = shown_keys(after)
+        if label == "inside a sub-key group":
+            inner = have.get("grp", (None, None))[1]
+            innerl = inner[2][0][2][0] if inner is not None and inner[0] == "ctor" and inner[1] == "Subkeys" and inner[2] and inner[2][0][1] == "Some" else None
+            ih = shown_keys(innerl) if innerl is not None else None
+            if ih is None or sorted(ih) != ["a", "b"] or ih["a"][0] != "plural":
+                badm.append("the forms a_one / a_other inside a sub-key group become %s, expected the plural key `a` next to `b`" % (sorted(ih) if ih else absint.fmt(have.get("grp", ("", A("?")))[1])[:120]))
+            continue
+        if have != want:
+            lost = sorted(set(want) - set(have))
+            badm.append("keys %s become %s, expected %s%s" % (names, {k2: v2[0] if v2[0] == "plain" else (v2[1], sorted(v2[2])) for k2, v2 in sorted(have.items())},
+                                                              {k2: v2[0] if v2[0] == "plain" else (v2[1], sorted(v2[2])) for k2, v2 in sorted(want.items())}, (" - %s silently dropped" % lost) if lost else ""))
+    if badm:
+        r.viol("R2:merge_plurals", "; ".join(badm[:3]), file=fn.file, line=fn.line)
+    else:
+        for k in ("single-kept", "needs-other", "group-by-base", "non-candidates-kept", "count-key", "other"):
+            r.inst("merge_plurals#" + k, "%d key sets: forms of one base key and rule type with `_other` become one plural (count key `var_count`, every form under its own category), lone forms / forms without `_other` / non-candidates stay "
+                   "ordinary keys, mixed rule types and a merged key landing on an existing key are errors, sub-key groups are merged too, no key is dropped" % nsh)
     return r
 
 
@@ -237,43 +356,16 @@ def r3_diagnostics(ctx, prog):
     r = Rule("C05.R3", "plural diagnostics are guarded by the right tests",
              "ConflictingPluralRuleType must fire exactly when a form's rule type differs, PluralsAtNormalKey when the merged key "
              "displaces another, UnusedForm for forms the locale never selects", floor=4)
-    fam = prog.bodies_matching(r"locale::Locale::merge_plurals(::\{closure#\d+\})*$")
-    got_conflict = False
-    for b in fam:
-        errs = M.agg_blocks(b, "error::Error", "ConflictingPluralRuleType")
-        if not errs:
-            continue
-        eqs = M.call_blocks(b, r"PluralRuleType as std::cmp::PartialEq>::eq$")
-        for c in eqs:
-            rsw = M.result_switch(b, c)
-            if not rsw:
-                continue
-            swb, t_true, t_false = rsw
-            oks = [i for i, j, s in b.aggregates("std::result::Result", "Ok")]
-            if any(M.exclusive_reach(b, t_false, e, t_true) for e in errs) and any(M.exclusive_reach(b, t_true, o, t_false) for o in oks) and not any(M.exclusive_reach(b, t_true, e, t_false) for e in errs) and not any(M.exclusive_reach(b, t_false, o, t_true) for o in oks):
-                got_conflict = True
-                r.inst(b.name + "#ConflictingPluralRuleType", "rule == rule_type: false side -> Err(ConflictingPluralRuleType), true side -> Ok((form, value))")
-    if not got_conflict:
-        r.viol("R3:merge_plurals#ConflictingPluralRuleType", "ConflictingPluralRuleType is not produced on (exactly) the false side of `rule == rule_type`", file=PL)
+    # when ConflictingPluralRuleType / PluralsAtNormalKey are produced is decided by the evaluation of merge_plurals (R2);
+    # here: the diagnostics still have a construction site, and every merged plural is checked for unused forms
     b = prog.body("locale::Locale::merge_plurals")
-    if b is not None:
-        errs = M.agg_blocks(b, "error::Error", "PluralsAtNormalKey")
-        ins = M.call_blocks(b, r"BTreeMap::<K, V, A>::insert$")
-        issome = M.call_blocks(b, r"std::option::Option::<T>::is_some$")
-        ok = False
-        for c in issome:
-            rsw = M.result_switch(b, c)
-            if rsw and errs and any(M.exclusive_reach(b, rsw[1], e, rsw[2]) for e in errs) and not any(M.exclusive_reach(b, rsw[2], e, rsw[1]) for e in errs):
-                # the tested option is the result of an insert
-                arg = op_place(b.blocks[c]["term"]["args"][0])
-                from mirlib import backward_slice
-                ls, defs = backward_slice(b, arg["l"])
-                if any(j == "term" and (callee_name(s) or "").endswith("BTreeMap::<K, V, A>::insert") for (i, j, s) in defs):
-                    ok = True
-        if ok:
-            r.inst("merge_plurals#PluralsAtNormalKey", "self.keys.insert(key, plural).is_some() -> true side -> Err(PluralsAtNormalKey)")
+    fam = prog.bodies_matching(r"locale::Locale::merge_plurals(::\{closure#\d+\})*$")
+    for variant in ("ConflictingPluralRuleType", "PluralsAtNormalKey"):
+        if any(M.agg_blocks(bb, "error::Error", variant) for bb in fam):
+            r.inst("merge_plurals#" + variant, "constructed in merge_plurals (conditions evaluated by C05.R2)")
         else:
-            r.viol("R3:merge_plurals#PluralsAtNormalKey", "PluralsAtNormalKey is not produced on the true side of `keys.insert(..).is_some()`", file=b.file, line=b.line)
+            r.viol("R3:merge_plurals#" + variant, "%s is no longer produced by merge_plurals" % variant, file=PL)
+    if b is not None:
         cf = M.call_blocks(b, r"plurals::Plurals::check_forms$")
         aggs = M.agg_blocks(b, "plurals::Plurals", "Plurals")
         if cf and aggs and all(any(b.dominates(a, c) for a in aggs) for c in cf):
